@@ -26,6 +26,7 @@
     norm n i            C10Path    (i mod n) as a natural number
     ssLoopC / backoffC / searchsortedCdfC  C10Reads  the searches with aborting reads
     Rounding, Fl R      C10Round   abstract rounded arithmetic
+    Init2Bad sv init    C10Sv2     the 2-D init is refused: scalar / ndim ≥ 3, or some requested row is not a label row
     svOnly, assignments C10Hist    the fold of the state_values setter over the assignments of a history
 -/
 import Mathlib.Order.Defs.LinearOrder
@@ -42,6 +43,7 @@ import QEProofs.Lemmas.C10Accept
 import QEProofs.Lemmas.C10Round
 import QEProofs.Lemmas.C10Hist
 import QEProofs.Lemmas.C10Law
+import QEProofs.Lemmas.C10Sv2
 namespace QE.C10
 variable {α : Type}
 
@@ -1054,5 +1056,103 @@ theorem random_draw_follows_law_rat (q us : List Rat) (hq : ∀ x ∈ q, (0 : Ra
 
 example : draw (cumsum ([1/4, 0, 3/4, 0] : List Rat)) [0, 1/4, 999/1000, 1, 5] = [0, 2, 2, 2, 2] := by
   decide +kernel
+
+/-! ## 15. 2-D `state_values` (one label row per state) -/
+
+/-- **Row look-up, exact characterisation.** `_get_index` on 2-D `state_values` returns `i` iff row
+    `i` equals the value and no earlier row does; it fails iff no row equals the value (in particular
+    for a row of another length). -/
+theorem state_row_lookup_iff (sv : List (List Int)) (v : List Int) :
+    (∀ i, findRow sv v = some i ↔ ∃ h : i < sv.length, sv[i] = v ∧ ∀ j (hj : j < i), sv[j] ≠ v) ∧
+    (findRow sv v = none ↔ v ∉ sv) :=
+  ⟨fun i => findRow_eq_some_iff sv v i, findRow_eq_none_iff sv v⟩
+
+example : findRow [[1, 2], [3, 4], [1, 2]] [1, 2] = some 0 := by decide
+example : findRow [[1, 2], [3, 4]] [3] = none := by decide
+
+/-- **Which 2-D requests `simulate` refuses** — always with `ValueError`, before any random number is
+    used: a scalar or an array of 3 or more dimensions; a row that is no label row; an array of rows one
+    of which is no label row.  Every other request passes the look-up. -/
+theorem simulate_2d_refused_iff (sv : List (List Int)) (n : Nat) (f : Nat → List α → Option (List Nat))
+    (init : Init2) (reps : Option Nat) (drawn : List Nat) (ts : Nat) (us : List (List α)) :
+    ((∃ e, getIndexSV2 sv init = .error e) ↔ Init2Bad sv init) ∧
+    (Init2Bad sv init → simulateSV2 sv n f init reps drawn ts us = .error .valueError) := by
+  obtain ⟨h1, h2⟩ := getIndexSV2_error_iff sv init
+  refine ⟨h1, fun hb => ?_⟩
+  obtain ⟨e, he⟩ := h1.mpr hb
+  have := h2 e he
+  subst this
+  unfold simulateSV2
+  rw [he]
+
+example : Init2Bad [[1, 2], [3, 4]] (.rows [[3, 4], [5, 6]]) := ⟨[5, 6], by simp, by simp⟩
+example : ¬ Init2Bad [[1, 2], [3, 4]] (.rows [[3, 4], [1, 2]]) := by simp [Init2Bad]
+
+/-- **`simulate(init=<label row>)` with 2-D state values starts at the requested row.**  Dense chain
+    with a square cdf array of `n` rows, `state_values = sv` with `n` rows, a row `v` that occurs in
+    `sv`, `ts ≥ 1`, any `ts−1` numbers.  The call returns a 2-D array (`dim = 2`) of `ts` label rows:
+    the annotation `sv[p[t]]` of a path `p` that starts at the *first* position `i` whose row equals `v`
+    (so the first returned row is `v`), stays in the state space and follows the kernel step. -/
+theorem simulate_by_row_value_valid_dense [LT α] [DecidableLT α] [BEq α] (cdfs : List (List α))
+    (hsq : ∀ row ∈ cdfs, row.length = cdfs.length) (sv : List (List Int)) (hsv : sv.length = cdfs.length)
+    (v : List Int) (hv : v ∈ sv) (ts : Nat) (hts : 0 < ts) (u : List α) (hu : u.length + 1 = ts) :
+    ∃ (p : List Nat) (i : Nat), ∃ hi : i < sv.length,
+      simulateSV2 sv cdfs.length (pathDense cdfs) (.row v) none [] ts [u]
+        = .ok (some (2, [p.map fun s => sv.getD s []])) ∧
+      sv[i] = v ∧ (∀ j (hj : j < i), sv[j] ≠ v) ∧
+      p.length = ts ∧ p[0]? = some i ∧ (p.map fun s => sv.getD s [])[0]? = some v ∧
+      (∀ x ∈ p, x < cdfs.length) ∧ IsPathOf (denseStep cdfs) i u p := by
+  obtain ⟨i, hfind⟩ : ∃ i, findRow sv v = some i := by
+    cases h : findRow sv v with
+    | none => exact absurd hv ((findRow_eq_none_iff sv v).mp h)
+    | some i => exact ⟨i, rfl⟩
+  obtain ⟨hi, hval, hfirst⟩ := (findRow_eq_some_iff sv v i).mp hfind
+  have hlook : getIndexSV2 sv (.row v) = .ok (.scalar (Int.ofNat i)) := by simp [getIndexSV2, hfind]
+  have hin : (0 : Int) ≤ Int.ofNat i ∧ Int.ofNat i < (cdfs.length : Int) := by
+    constructor
+    · exact Int.natCast_nonneg i
+    · have : i < cdfs.length := by omega
+      exact Int.ofNat_lt.mpr this
+  have hok : InitOK cdfs.length (.scalar (Int.ofNat i)) none := by
+    simp only [InitOK, inRange, Bool.and_eq_true, decide_eq_true_eq]
+    omega
+  obtain ⟨ps, hps, hk, hall⟩ := simulate_indices_valid_dense cdfs hsq (.scalar (Int.ofNat i)) none [] ts [u]
+    hok (fun h => by cases h) hts rfl (fun r hr => by simp at hr; rw [hr]; exact hu)
+  simp only [docK] at hk hall
+  obtain ⟨p, s0, u', hp, hu', hreq, hpath, hplen, hpall⟩ := hall 0 (by omega)
+  have hps1 : ps = [p] := by
+    cases ps with
+    | nil => simp at hk
+    | cons a rest =>
+      cases rest with
+      | nil => simp at hp; rw [hp]
+      | cons _ _ => simp at hk
+  simp at hu'
+  subst hu'
+  simp only [requested, Option.some.injEq] at hreq
+  have hs0 : s0 = i := by
+    rw [← hreq, norm_of_nonneg _ _ hin.1 hin.2]; rfl
+  subst hs0
+  subst hps1
+  have hann := annotate2_spec sv [p] (by
+    intro q hq s hs
+    simp at hq; subst hq
+    have := hpall s hs; omega)
+  refine ⟨p, s0, hi, ?_, hval, hfirst, hplen, hpath.2.1, ?_, hpall, hpath⟩
+  · unfold simulateSV2
+    rw [hlook]
+    simp only [hps, hann, Option.map_some, docDim]
+    rfl
+  · have h0 := hpath.2.1
+    rw [List.getElem?_map, h0]
+    simp only [Option.map_some, Option.some.injEq]
+    rw [List.getD_eq_getElem?_getD, List.getElem?_eq_getElem hi]
+    exact hval
+
+/-- non-vacuity: duplicated label rows — the first position wins — and a genuine two-step path -/
+example : simulateSV2 [[1, 2], [3, 4]] 2 (pathDense ([[1, 4], [4, 4]] : List (List Int))) (.row [3, 4]) none [] 3
+    [[0, 4]] = .ok (some (2, [[[3, 4], [1, 2], [3, 4]]])) := by decide +kernel
+example : simulateSV2 [[5, 5], [5, 5]] 2 (pathDense ([[1, 4], [4, 4]] : List (List Int))) (.row [5, 5]) none [] 1
+    [[]] = .ok (some (2, [[[5, 5]]])) := by decide +kernel
 
 end QE.C10
